@@ -186,6 +186,8 @@ def run_apalache(ctx, module, step_timeout=2400, witness=None, theorem=None):
 def n_trace_events(cmd, trace_row, following=()):
     if cmd["op"] in ("enc14", "encpn"):
         return 1 + len(trace_row.get("bytes", []))
+    if cmd["op"] == "spin":
+        return 1
     if cmd["op"] == "rep":
         # the events of one `rep` command carry the same "inrep" tag
         k = 1
@@ -541,6 +543,22 @@ def sweep_reset(ctx, paths_file, kind, to, max_states, suffix=8):
         rows.append({"op": "reset", "id": 1})
         rows.append({"op": "new", "id": 2, "k": kind, "to": to, "now": now})
         rows.append({"op": "eq", "id": 1, "b": 2, "xe": True, "xp": "C17"})
+        # first a complete construct on the same channel (a scanner that is really new reports it in full) ...
+        if kind == "cc14":
+            cn = ctx.rng.randrange(32)
+            fixed = [[176 + ch, cn, 100], [176 + ch, cn + 32, 3]]
+        else:
+            fixed = [[176 + ch, 99, 3], [176 + ch, 98, 37], [176 + ch, 6, 100], [176 + ch, 38, 24], [176 + ch, 96, 1],
+                     [176 + ch, 101, 3], [176 + ch, 100, 36], [176 + ch, 38, 7], [176 + ch, 6, 8]]
+        if ctx.rng.random() < 0.5:
+            for m in fixed:
+                rows.append({"op": "feed", "id": 1, "m": m})
+                rows.append({"op": "feed", "id": 2, "m": m, "tw": 1, "twp": "C17"})
+            if kind == "poll":
+                rows.append({"op": "tick", "id": -1, "dt": max(to, 0) + 1})
+                rows.append({"op": "poll", "id": 1, "ch": ch})
+                rows.append({"op": "poll", "id": 2, "ch": ch, "tw": 1, "twp": "C17"})
+        # ... then seeded traffic
         tr = gen.Traffic(ctx.rng, kind, [ch])
         for _ in range(suffix):
             r = ctx.rng.random()
